@@ -108,13 +108,13 @@ def install_mem_write_counter():
     _w = cls.write
     _c = cls.clear
 
-    def write(self, data, block=None):
+    def write(self, *a, **k):
         WRITES[0] += 1
-        return _w(self, data, block)
+        return _w(self, *a, **k)
 
-    def clear(self):
+    def clear(self, *a, **k):
         WRITES[0] += 1
-        return _c(self)
+        return _c(self, *a, **k)
 
     cls.write = write
     cls.clear = clear
@@ -141,11 +141,16 @@ def install_m2():
     _read = cls.read
     _write = cls.write
 
-    def read(self, block):
-        _read(self, block)
-        self._vt_shadow = list(self.data) if self.exists else None
+    def read(self, *a, **k):
+        # signature-agnostic: the wrapped method may grow parameters
+        r = _read(self, *a, **k)
+        try:
+            self._vt_shadow = list(self.data) if self.exists else None
+        except Exception:
+            self._vt_shadow = None
+        return r
 
-    def write(self):
+    def write(self, *a, **k):
         M2_STATS["writes"] += 1
         try:
             if self.exists and self.block is not None:
@@ -165,8 +170,12 @@ def install_m2():
                                 M2_EVENTS.append((self.block, FIELD_NAMES[f], sh[f], disk[f], self.data[f]))
         except Exception as e:  # the sanitizer must never break the run
             M2_STATS["monitor_errors"] += 1
-        _write(self)
-        self._vt_shadow = list(self.data)
+        r = _write(self, *a, **k)
+        try:
+            self._vt_shadow = list(self.data)
+        except Exception:
+            self._vt_shadow = None
+        return r
 
     cls.read = read
     cls.write = write
@@ -189,7 +198,7 @@ def install_m7():
         STATUS["M7"] = "absent: TraphIteratorState.should_yield"
         return False
 
-    def should_yield(self, yield_frequency=1000):
+    def should_yield(self, *a, **k):
         self.n_iterations += 1
         return True
 
